@@ -260,7 +260,17 @@ impl Check for C10 {
                 ok = false;
                 break;
             }
+            if !r.ended {
+                // cut at the answer cap: not a complete multiset
+                out.count("comparisons_skipped_answer_cap", 1);
+                ok = false;
+                break;
+            }
             union.extend(r.finals.iter().map(|f| f.answer.clone()));
+        }
+        if ok && !st.ended {
+            out.count("comparisons_skipped_answer_cap", 1);
+            ok = false;
         }
         if ok {
             out.count("union_compared", 1);
